@@ -931,8 +931,75 @@ def run_loader(case, rec):
     return tuple(obs)
 
 
+def run_sharedargs(case, rec):
+    """ONE JsonSchemaValidator object, two methods whose validate(...) arguments differ beyond the schema (one passes a format checker):
+    in every order of calls each method is validated with ITS arguments"""
+    import jsonschema as _js
+    obs = []
+    fmt_schema = {'type': 'object', 'properties': {'h': {'type': 'string', 'format': 'ipv4'}}, 'required': ['h']}
+    for disp in ('sync', 'async'):
+        for order in itertools.permutations(('strict-bad', 'strict-ok', 'lenient-bad', 'lenient-ok'), 3):
+            v = vjs.JsonSchemaValidator()
+            log = []
+            ns = {'_log': log}
+            pre = 'async ' if disp == 'async' else ''
+            exec('%sdef strict(h):\n    _log.append(("strict", h))\n    return h\n%sdef lenient(h):\n    _log.append(("lenient", h))\n    return h\n' % (pre, pre), ns)
+            d = pjrpc.server.AsyncDispatcher() if disp == 'async' else pjrpc.server.Dispatcher()
+            d.add(v.validate(schema=fmt_schema, format_checker=_js.FormatChecker())(ns['strict']), name='strict')
+            d.add(v.validate(schema=dict(fmt_schema))(ns['lenient']), name='lenient')
+            for step in order:
+                method, arg = step.split('-')[0], ('1.2.3.4' if step.endswith('ok') else 'not-an-ip')
+                del log[:]
+                try:
+                    resp = json.loads(dispatch(d, disp == 'async', json.dumps({'jsonrpc': '2.0', 'id': 1, 'method': method, 'params': [arg]}))[0])
+                except Exception as e:   # noqa
+                    resp = {'raised': repr(e)[:200]}
+                rec.transitions += 1
+                accept = step != 'strict-bad'
+                code = resp.get('error', {}).get('code') if isinstance(resp.get('error'), dict) else None
+                ok = (resp.get('result') == arg and len(log) == 1) if accept else (code == -32602 and not log)
+                if not ok:
+                    rec.violation('C14:jsonschema:methods sharing one validator object are not validated with their own validate() arguments (%s)' % ('conforming call refused' if accept else 'non-conforming call executed'),
+                                  dict(case, disp=disp, order=list(order), step=step), expected='result' if accept else -32602, observed=resp)
+                    break
+                obs.append(ok)
+    return tuple(obs)
+
+
+def run_defaultschema(case, rec):
+    """the schema is given to the VALIDATOR (JsonSchemaValidator(schema=S)) and the methods are decorated bare; a per-method schema overrides it"""
+    obs = []
+    S = {'type': 'object', 'properties': {'a': {'type': 'integer', 'maximum': 5}}, 'required': ['a']}
+    for disp in ('sync', 'async'):
+        v = vjs.JsonSchemaValidator(schema=S)
+        log = []
+        ns = {'_log': log}
+        pre = 'async ' if disp == 'async' else ''
+        exec('%sdef bare(a, b=1):\n    _log.append(("bare", a, b))\n    return a\n%sdef own(a, b=1):\n    _log.append(("own", a, b))\n    return a\n' % (pre, pre), ns)
+        d = pjrpc.server.AsyncDispatcher() if disp == 'async' else pjrpc.server.Dispatcher()
+        d.add(v.validate(ns['bare']), name='bare')
+        d.add(v.validate(schema={'type': 'object', 'properties': {'a': {'type': 'string'}}})(ns['own']), name='own')
+        for method, params, accept in (('bare', [3], True), ('bare', [7], False), ('bare', ['x'], False), ('bare', {'a': 5, 'b': 2}, True), ('bare', {'b': 2}, False),
+                                       ('own', ['x'], True), ('own', [3], False), ('bare', [6], False), ('bare', [0], True)):
+            del log[:]
+            try:
+                resp = json.loads(dispatch(d, disp == 'async', json.dumps({'jsonrpc': '2.0', 'id': 1, 'method': method, 'params': params}))[0])
+            except Exception as e:   # noqa
+                resp = {'raised': repr(e)[:200]}
+            rec.transitions += 1
+            code = resp.get('error', {}).get('code') if isinstance(resp.get('error'), dict) else None
+            ok = ('result' in resp and len(log) == 1) if accept else (code == -32602 and not log)
+            if not ok:
+                rec.violation('C14:jsonschema:schema configured on the validator object:%s' % ('conforming call refused' if accept else 'non-conforming call not refused with -32602 (%s)' % ('executed' if log else 'code %s' % code)),
+                              dict(case, disp=disp, method=method, params=params), expected='result' if accept else -32602, observed=resp)
+            obs.append(ok)
+    return tuple(obs)
+
+
 def gen_cases(ctx):
+    yield dict(part='defaultschema')
     yield dict(part='loader')
+    yield dict(part='sharedargs')
     yield from gen_multi(ctx)
     yield from gen_ctx(ctx)
     yield from gen_pd(ctx)
@@ -942,7 +1009,7 @@ def gen_cases(ctx):
 def run_case(case, rec):
     from mc.core import Recorder
     r = Recorder()
-    obs = {'js': run_js, 'ctx': run_ctx, 'pd': run_pd, 'multi': run_multi, 'viewpred': run_viewpred, 'samename': run_samename, 'eqsig': run_eqsig, 'noargs': run_noargs, 'variadic': run_variadic, 'twoschemas': run_twoschemas, 'loader': run_loader}[case['part']](case, r)
+    obs = {'js': run_js, 'ctx': run_ctx, 'pd': run_pd, 'multi': run_multi, 'viewpred': run_viewpred, 'samename': run_samename, 'eqsig': run_eqsig, 'noargs': run_noargs, 'variadic': run_variadic, 'twoschemas': run_twoschemas, 'loader': run_loader, 'sharedargs': run_sharedargs, 'defaultschema': run_defaultschema}[case['part']](case, r)
     r.states += 1
     r.traces += 1
     r.nontrivial_n += 1
